@@ -166,7 +166,7 @@ Fixpoint sort_flat (cs : list name) (ks : list (expr * sdir)) (rows : list row) 
   | k :: ks' => match sort_flat cs ks' rows with Some mid => sort_pass cs k mid | None => None end
   end.
 
-Lemma sort_cols ks : forall d d', sort_df split ks d = Some d' -> cols d' = cols d.
+Lemma sort_df_cols ks : forall d d', sort_df split ks d = Some d' -> cols d' = cols d.
 Proof.
   induction ks as [|k ks IH]; intros d d' H; cbn [sort_df] in H.
   - inversion H; reflexivity.
@@ -1043,4 +1043,25 @@ Proof.
     apply Forall_app in HP. tauto.
   - destruct (distinct_spec split L d) as [_ [S _]]. eapply subseq_Forall; eauto.
   - intros ns d' H. destruct (dropDuplicates_spec split L ns d d' H) as [_ [S _]]. eapply subseq_Forall; eauto.
+Qed.
+
+(* ====================================================================== sort / orderBy calling conventions *)
+(* what DataFrame._sort_cols makes of the `ascending` argument: absent or true -- the keys as given (a key
+   with an explicit ordering keeps it); false -- descending, nulls last; a list -- flag by flag *)
+Theorem sort_cols_meaning : forall ks,
+  sort_cols ks AscAbsent = ks /\ sort_cols ks (AscScalar true) = ks /\
+  sort_cols ks (AscScalar false) = map desc_of ks /\
+  (forall bs, length bs = length ks -> forall i k, nth_error ks i = Some k ->
+     exists b, nth_error bs i = Some b /\
+               nth_error (sort_cols ks (AscList bs)) i = Some (if b then k else desc_of k)) /\
+  (forall k, fst (desc_of k) = fst k /\ sql_ascending (snd (desc_of k)) = false /\
+             sql_nulls_first (snd (desc_of k)) = false /\
+             dir_ascending (snd (desc_of k)) = false /\ dir_nulls_smaller (snd (desc_of k)) = true).
+Proof.
+  intros ks. repeat split.
+  intros bs. revert ks. induction bs as [|b bs IH]; intros ks Hl i k Hn.
+  - destruct ks; [destruct i; discriminate Hn | discriminate Hl].
+  - destruct ks as [|k0 ks]; [discriminate Hl|]. destruct i as [|i]; cbn in Hn |- *.
+    + inversion Hn; subst. exists b. split; reflexivity.
+    + cbn in Hl. apply (IH ks); [lia | exact Hn].
 Qed.
